@@ -39,8 +39,18 @@ def same_events(mo, io):
         return True
     if "W:?" not in io:
         return False
+    # `W:?` matches a warning the model expects at that place, or — a warning no property speaks of — nothing at all
     a, b = mo.split(" "), io.split(" ")
-    return len(a) == len(b) and all(x == y or (y == "W:?" and x.startswith("W:")) for x, y in zip(a, b))
+    i = 0
+    for y in b:
+        if y == "W:?":
+            if i < len(a) and a[i].startswith("W:"):
+                i += 1
+            continue
+        if i >= len(a) or a[i] != y:
+            return False
+        i += 1
+    return i == len(a)
 
 
 def opts_kw(o):
